@@ -32,7 +32,11 @@ CONSTANTS MaxN, Names, KindSet
 
 DefKinds == {"def", "adef", "cm", "sm", "prop", "setter"}          \* function definitions
 ClassKinds == {"class", "exc"}
-FlowKinds == {"if", "ifmain", "try", "with", "for", "while"}
+\* blocks that are NOT the `body` of their statement but still run when the module is imported: the else branch of an `if`
+\* whose test is false, the else branch of a try whose body does not raise, the handler of a try whose body raises, a finally
+\* block, the else branch of a loop that is not broken out of.  The builder walks `.body` only (astutils.NodeVisitor.get_children).
+ElseKinds == {"ifelse", "tryelse", "tryexcept", "finally", "forelse"}
+FlowKinds == {"if", "ifmain", "try", "with", "for", "while"} \cup ElseKinds
 LeafKinds == {"assign", "oldcm", "oldsm", "docstr", "mivar", "mivard", "del"}
    \* del: "del x" - unbinds the name (the builder has no visit_Delete: the statement is not seen)
    \* x = <literal> ; f = classmethod(f) ; f = staticmethod(f) ; a bare string ;
@@ -80,6 +84,9 @@ InFunc(i) == \E a \in Anc(i) \ {0} : kind[a] \in DefKinds
 Runs(i) == ~InMain(i) /\ ~InFunc(i)
 NodesIn(s) == {i \in 1..n : Scope(i) = s /\ Runs(i) /\ kind[i] \notin FlowKinds \cup {"docstr"}}   \* binding statements of scope s
 SeqOfScope(s) == SetToSortSeq(NodesIn(s), LAMBDA a, b : a < b)                                            \* in source order
+\* ... and the statements the builder's walk reaches
+PdRuns(i) == Runs(i) /\ \A a \in Anc(i) \ {0} : kind[a] \notin ElseKinds
+PdSeqOfScope(s) == SetToSortSeq({i \in NodesIn(s) : PdRuns(i)}, LAMBDA a, b : a < b)
 
 \* ---------------------------------------------------------------- reference: PyExec
 PyKind(i) == CASE kind[i] = "def" -> IF Scope(i) # 0 /\ kind[Scope(i)] \in ClassKinds THEN "method" ELSE "function"
@@ -150,12 +157,12 @@ PdFold(seq, k, ns) ==
                 ELSE IF ns1[nm[i]].kind \in {"variable", "ivar"} THEN [ns1 EXCEPT ![nm[i]] = [node |-> i, kind |-> "ivar"]]   \* kind set unconditionally
                 ELSE ns1)                                 \* a property stays a property (the setter is called); a function or class: ignored
       [] OTHER -> PdFold(seq, k + 1, [x \in DOMAIN ns \cup {nm[i]} |-> IF x = nm[i] THEN [node |-> i, kind |-> PdKind(i)] ELSE ns[x]])
-PdNS(s) == PdFold(SeqOfScope(s), 1, <<>>)
+PdNS(s) == PdFold(PdSeqOfScope(s), 1, <<>>)
 
 \* namespaces that exist: the module, and every class that is the winner of its name in an existing namespace
 RECURSIVE Exists(_, _)
 Exists(s, which) == IF s = 0 THEN TRUE
-                    ELSE /\ Runs(s) /\ kind[s] \in ClassKinds
+                    ELSE /\ (IF which = "py" THEN Runs(s) ELSE PdRuns(s)) /\ kind[s] \in ClassKinds
                          /\ Exists(Scope(s), which)
                          /\ LET ns == IF which = "py" THEN PyNS(Scope(s)) ELSE PdNS(Scope(s))
                             IN nm[s] \in DOMAIN ns /\ ns[nm[s]].node = s
@@ -184,8 +191,8 @@ RefVarDoc(s, x) == LET isvar == x \in DOMAIN PyNS(s) /\ PyNS(s)[x].kind = "varia
 \* a following string would document.  addAttribute / _storeCurrentAttr set it, _push / _pop (entering and leaving a class
 \* or function) clear it, visit_Expr consumes it; flow statements (if/try/...) leave it alone.
 Pushes(k) == kind[k] \in ClassKinds \cup (DefKinds \ {"prop"}) \cup IvarKinds
-LeftBefore(k) == k > 1 /\ \E c \in (({k - 1} \cup Anc(k - 1)) \ ({0} \cup Anc(k))) : Runs(c) /\ Pushes(c)
-PdNSBefore(s, k) == PdFold(SelectSeq(SeqOfScope(s), LAMBDA j : j < k), 1, <<>>)
+LeftBefore(k) == k > 1 /\ \E c \in (({k - 1} \cup Anc(k - 1)) \ ({0} \cup Anc(k))) : PdRuns(c) /\ Pushes(c)
+PdNSBefore(s, k) == PdFold(SelectSeq(PdSeqOfScope(s), LAMBDA j : j < k), 1, <<>>)
 \* does the assignment at k touch an Attribute object (new or existing)?  (otherwise it is ignored: the name is a function/class)
 SetsAttr(k) == LET ns == PdNSBefore(Scope(k), k) IN nm[k] \notin DOMAIN ns \/ ns[nm[k]].kind \in {"variable", "ivar", "property"}
 \* the assignment in the body of the mivar method at k reaches _storeCurrentAttr (not a property, function or class of that name)
@@ -194,7 +201,7 @@ Drop(docs, key) == [d \in DOMAIN docs \ {key} |-> docs[d]]
 RECURSIVE PdWalk(_, _, _)
 PdWalk(k, cur, docs) ==
   IF k > n THEN docs
-  ELSE IF ~Runs(k) THEN PdWalk(k + 1, IF LeftBefore(k) THEN <<>> ELSE cur, docs)
+  ELSE IF ~PdRuns(k) THEN PdWalk(k + 1, IF LeftBefore(k) THEN <<>> ELSE cur, docs)
   ELSE LET c0 == IF LeftBefore(k) THEN <<>> ELSE cur IN
     CASE kind[k] = "mivard" /\ IvarSetsAttr(k) ->        \* pushFunction clears, the assignment sets, the string consumes, popFunction clears
              PdWalk(k + 1, <<>>, [d \in DOMAIN docs \cup {<<Scope(k), nm[k]>>} |-> IF d = <<Scope(k), nm[k]>> THEN k ELSE docs[d]])
